@@ -465,7 +465,8 @@ def check(rep):
     nvalid = stats['valid_exhaustive'] + stats['valid_boundary'] + stats['valid_charclass'] + stats['valid_random']
     rep.cov['case_lines'] = len(cases)
     rep.cov['samples'] = [shrink_case(c) for c in (cases[1:2] + cases[600:601] + cases[-2000:-1999] + cases[-1:])]
-    rep.cov['exhaustive'] = 'over the stated alphabet and lengths only'
+    rep.cov['exhaustive'] = False
+    rep.cov['exhaustive_note'] = 'exhaustive over the stated alphabet and lengths only'
     impl = None
     if 'pure' in ctx.exe:
         rc, impl, err = vlib.parallel_run_cases(ctx.exe['pure'], cases, ctx.work, 'impl')
